@@ -732,3 +732,7 @@ func TestVF_C14_Socket(t *testing.T) {
 }
 
 var _ = binary.LittleEndian
+
+func FuzzVF_C13_Parser(f *testing.F) {
+	kit.DriveFuzz(f, "C13", "FuzzVF_C13_Parser", "native coverage-guided fuzzing (go test -fuzz) of the byte stream behind the generator of TestVF_C13_Parser, same oracle", vfGenParse, vfRunParse)
+}
